@@ -138,7 +138,7 @@ def run(ctx):
     # a conversation whose halves change protocol: the first request of the connection asks for h2c, the server declines.
     # No abstract pairing is expected here (the client half gives up after the upgrade request); the property itself is
     # the oracle: every schedule gives the result of the first one.
-    for xproto, cfg in [("httpup", c) for c in configs(ctx)[1:]] + [("redissub", c) for c in configs(ctx)[:4]]:
+    for xproto, cfg in [("httpup", c) for c in configs(ctx)[1:]] + [("redissub", c) for c in configs(ctx)[:4]] + [("kafkadesc", c) for c in configs(ctx)[1:4]]:
         args = ["conc", xproto, str(max_runs)] + ["%d:%s:%s" % (c, d, ",".join(map(str, ps))) for c, d, ps in cfg]
         rc, out = ctx.vh("vh-match", args, timeout=2400)
         lines = [json.loads(l) for l in out.split("\n") if l.startswith("{")]
@@ -190,7 +190,7 @@ def run(ctx):
         rule="every schedule of the yield points of the real redis and http Dissect of both directions under the deterministic scheduler for the listed conversations "
              "(1x1, 2x1, 2x2, 3x3 exchanges; thorough adds two connections and 4x3, capped at max_runs schedules per configuration); distinct = distinct model trace; "
              "plus an HTTP/1.1 connection whose first request asks for h2c and is declined, and a Redis connection with SUBSCRIBE / PSUBSCRIBE commands "
-             "and their acknowledgement arrays (every schedule against the first)",
+             "and their acknowledgement arrays, a Kafka connection whose correlation ids decrease (every schedule against the first)",
         assumptions=["one goroutine per direction per connection", "sync.Map / sync.Mutex linearizable"],
         extra={"max_runs_per_config": max_runs})
 
